@@ -15,7 +15,8 @@ META = {
     'rules': {
         'R1': 'the safety radius is k*sqrt(max over ALL vertices of radius^2) with k >= 2: reduction is a maximum with the natural comparator over the unfiltered vertex list',
         'R2': 'every normal path that changes the vertex multiset (truncate/push/element assignment/initial construction) reaches the radius update before returning',
-        'R3': 'radius^2 of a vertex is the squared distance from the generator to the vertex projected on the active subspace (projection keeps at least the active axes); '
+        'R3': 'radius^2 of a vertex is the squared distance from the generator to the vertex projected on the active subspace (projection keeps at least the active axes), '
+              'computed as a sum of squares — not as a difference of overlapping sums (cancellation); '
               'every vertex a cell starts with is built by the vertex constructor from the cell\'s OWN generator position and the boundary\'s planes (no vertex record shared between cells), '
               'and radius^2 is written nowhere else',
         'R4': 'termination test: the builder stops only when c_l*safety_radius < c_r*|L-R| with (c_l/c_r)*k >= 2',
